@@ -24,6 +24,7 @@ func main() {
 	verif := flag.String("verif", "", "verification directory (default: directory above the binary, else /verif)")
 	list := flag.Bool("list", false, "list properties and rules")
 	replay := flag.String("replay", "", "re-evaluate the obligation recorded in a violation file")
+	verbose := flag.Bool("v", false, "print every obligation")
 	noSelf := flag.Bool("noselftest", false, "thorough tier without the seeded-variant self-validation")
 	flag.Parse()
 
@@ -91,6 +92,7 @@ func main() {
 	if err != nil && !os.IsNotExist(err) {
 		out.Fatal = "known_findings.json: " + err.Error()
 	}
+	out.Verbose = *verbose
 	os.Exit(out.Finish(findings))
 }
 
